@@ -433,6 +433,16 @@ def well_typed(T, obj, bridge):
             c = obj.getComponentByPosition(idx, instantiate=False, default=None)
             if c is None or c is base.noValue or not c.isValue:
                 return 'member %s must be present (WITH COMPONENTS)' % n
+        for n in T.get('absent', ()):
+            idx = [f[0] for f in T['fields']].index(n)
+            c = obj.getComponentByPosition(idx, instantiate=False, default=None)
+            if not (c is None or c is base.noValue or not c.isValue):
+                return 'member %s must be absent (WITH COMPONENTS)' % n
+        for n, (lo, hi) in T.get('within', {}).items():
+            idx = [f[0] for f in T['fields']].index(n)
+            c = obj.getComponentByPosition(idx, instantiate=False, default=None)
+            if not (c is None or c is base.noValue or not c.isValue) and not lo <= int(c) <= hi:
+                return 'member %s is %d, WITH COMPONENTS says (%d..%d)' % (n, int(c), lo, hi)
         return None
     if k in ('SEQUENCEOF', 'SETOF'):
         if 'size' in T and not (T['size'][0] <= len(obj) <= T['size'][1]):
@@ -447,6 +457,8 @@ def well_typed(T, obj, bridge):
         fts = [f for fn, f, m in T['fields'] if fn == n]
         if not fts:
             return 'unknown alternative %s' % n
+        if n in T.get('absent', ()):
+            return 'alternative %s is chosen, WITH COMPONENTS says ABSENT' % n
         return well_typed(fts[0], obj.getComponent(), bridge)
     if obj.__class__ is not spec.__class__:
         return 'is a %s, declared %s' % (obj.__class__.__name__, spec.__class__.__name__)
